@@ -201,10 +201,22 @@ def census_max_len(v, depth=0):
     return 0
 
 
+class ReIterable:
+    """host-supplied lazy collection: iterable, but neither an iterator nor sized (a result-set / stream object)"""
+
+    def __init__(self, src):
+        self.src = src
+
+    def __iter__(self):
+        return self.src
+
+
 def run_case(case, ctx, eng, kind, lam, fill_optional=False, direct=False):
-    """one call + finalisation.  Returns dict(pulls, blown, outcome, maxlen)"""
+    """one call + finalisation.  Returns dict(pulls, blown, outcome, maxlen).  kind 'int', 'str', ...; with the suffix
+    '@re' the endless source is handed over as a re-iterable, unsized host object instead of an iterator"""
+    kind, _, present = kind.partition('@')
     src = Source(kind)
-    call = build_call(case, ctx, eng, src, lam, fill_optional)
+    call = build_call(case, ctx, eng, ReIterable(src) if present == 're' else src, lam, fill_optional)
     if call is None:
         return None
     receiver, args, kwargs = call
